@@ -218,6 +218,14 @@ inline Diff diff(const Node& a, const Node& b, NumMode mode, const std::string& 
       if (a.i != b.i) return {"int", path + ": int " + std::to_string(a.i) + " vs " + std::to_string(b.i)};
       return {};
     }
+    // b is the reference: a plain integer literal inside the int64 range (INT in the reference) denotes exactly that
+    // integer, so the value must come back as an integer - a double cannot hold the 19-digit ones (2^63-1 would
+    // silently become 2^63). Numerals with a fraction or exponent are compared numerically.
+    if (b.k == Node::INT && a.k == Node::FLT) {
+      char buf[200];
+      snprintf(buf, sizeof(buf), ": integer literal %lld came back as the float %.17g", static_cast<long long>(b.i), a.d);
+      return {"number:int-literal-as-float", path + buf};
+    }
     double x = (a.k == Node::INT) ? static_cast<double>(a.i) : a.d;
     double y = (b.k == Node::INT) ? static_cast<double>(b.i) : b.d;
     double m = std::max(fabs(x), fabs(y));
